@@ -7,7 +7,7 @@ SRC=$(readlink -f "$1"); shift
 REPO=${GDSTK_REPO:-/repo}
 D=$(mktemp -d /tmp/gdstk-replay.XXXXXX)
 trap 'rm -rf "$D"' EXIT
-ls $REPO/src/*.cpp $REPO/external/clipper/clipper.cpp | xargs -P16 -I{} sh -c 'clang++ -std=c++17 -g -O1 -fsanitize=address -fno-omit-frame-pointer -DNDEBUG -I'$REPO'/include -I'$REPO'/external -w -c {} -o '$D'/$(basename {}).o'
-clang++ -std=c++17 -g -O1 -fsanitize=address -DNDEBUG -I$REPO/include -I$REPO/external -w "$SRC" $D/*.o -lz -lqhull_r -o $D/replay
+ls $REPO/src/*.cpp $REPO/external/clipper/clipper.cpp | xargs -P16 -I{} sh -c 'clang++ -std=c++17 -g -O1 -fsanitize=address -fno-omit-frame-pointer ${REPLAY_DEFS--DNDEBUG} -I'$REPO'/include -I'$REPO'/external -w -c {} -o '$D'/$(basename {}).o'
+clang++ -std=c++17 -g -O1 -fsanitize=address ${REPLAY_DEFS--DNDEBUG} -I$REPO/include -I$REPO/external -w "$SRC" $D/*.o -lz -lqhull_r -o $D/replay
 cd $D
 ASAN_OPTIONS=detect_leaks=0 timeout 60 ./replay "$@"
